@@ -2,7 +2,7 @@
    child names = remove the same-named child, run the per-occurrence step on it
    (occ_child), append the result as Mandatory.  Plus frame lemmas. *)
 From XSG.Model Require Import Strings Necessity Element Parser Dom Spec.
-From XSG.Proofs Require Import StringsProofs NecessityProofs ElementProofs SpecProofs DemoteProofs ReprDefs.
+From XSG.Proofs Require Import StringsProofs NecessityProofs ElementProofs SpecProofs DemoteProofs SkelProofs ReprDefs.
 From Coq Require Import Lia Permutation.
 
 (* what absorbing never changes in the element that absorbs *)
@@ -11,87 +11,6 @@ Lemma frame_set_children e c : frame (set_children e c) = frame e. Proof. now de
 Lemma frame_set_text e b : frame (set_text e b) = frame e. Proof. now destruct e. Qed.
 Lemma frame_of_shell a b : shell a = shell b -> frame a = frame b.
 Proof. unfold shell, frame. intros H. inversion H. reflexivity. Qed.
-
-Lemma inner_go_eq : forall ks r kn,
-  (fix go (ks : list node) (r : element) (kn : list str) {struct ks} : element :=
-     match ks with
-     | [] => r
-     | k :: ks' => let (r', kn') := absorb k r kn in go ks' r' kn'
-     end) ks r kn = fst (absorb_forest ks r kn).
-Proof.
-  induction ks as [|k ks IH]; intros r kn; simpl; auto.
-  destruct (absorb k r kn) as [r' kn']. apply IH.
-Qed.
-
-Definition found_child (root : element) (n : str) := get_child (echildren root) n.
-Definition others (root : element) (n : str) := snd (remove_child (echildren root) n).
-
-Definition open_child (root : element) (n : str) (attrs : list str) (known : list str) : element :=
-  match found_child root n with
-  | Some c =>
-      let c1 := merge_attr (snd c) (map (fun a => (Mand, a)) attrs) in
-      let c2 := if mem n known then set_multiple c1 else c1 in
-      increment c2
-  | None =>
-      let c1 := new_element n attrs in
-      if mem n known then set_multiple c1 else c1
-  end.
-
-Lemma tag_open_eq root n attrs known ef :
-  tag_open root n attrs known ef
-  = ((if ef then ([], true) else snapshot (found_child root n)),
-     set_children root (others root n), open_child root n attrs known).
-Proof.
-  unfold tag_open, open_child, found_child, others.
-  pose proof (remove_child_fst (echildren root) n) as F.
-  destruct (remove_child (echildren root) n) as [f r]. simpl in *. subst f. reflexivity.
-Qed.
-
-Lemma ename_open_child root n attrs known : ename (open_child root n attrs known) = n.
-Proof.
-  unfold open_child, found_child. destruct (get_child (echildren root) n) as [c|] eqn:G.
-  - rewrite ename_increment. destruct (mem n known); rewrite ?ename_set_multiple, ename_merge_attr;
-      destruct (get_child_some _ _ _ G) as [_ E]; exact E.
-  - destruct (mem n known); rewrite ?ename_set_multiple; reflexivity.
-Qed.
-
-Definition demote (cc : list (str * N)) (c : element) : element :=
-  fold_left set_child_optional (rev (to_optional c cc)) c.
-
-(* the per-occurrence step on the child, independent of the rest of the parent *)
-Definition occ_child (root : element) (n : str) (ef : bool) (attrs : list str) (kids : list node)
-           (known : list str) : element :=
-  let c0 := open_child root n attrs known in
-  let c1 := if ef then c0 else fst (absorb_forest kids c0 []) in
-  let c2 := with_pos (set_children root (others root n)) c1 in
-  if ef then demote [] c2
-  else match found_child root n with
-       | Some c => demote (snap_of (echildren (snd c))) c2
-       | None => c2
-       end.
-
-(* absorbing keeps name, standalone, count, attributes, position of the absorbing element *)
-Lemma absorb_frame : forall nd root known, frame (fst (absorb nd root known)) = frame root.
-Proof.
-  intros nd root known. destruct nd as [n ef attrs kids| | |]; simpl; try apply frame_set_text; auto.
-  rewrite tag_open_eq. simpl.
-  unfold tag_close. simpl.
-  set (child := if ef then _ else _).
-  set (snap := if ef then _ else _).
-  set (root1 := set_children root (others root n)).
-  assert (F2 : frame (add_unique_child root1 child) = frame root).
-  { unfold add_unique_child. destruct (get_child (echildren root1) (ename child)).
-    - apply frame_set_children.
-    - rewrite frame_set_children. apply frame_set_children. }
-  destruct (snd snap); auto.
-  unfold tag_optional_children. destruct (get_child _ n); auto. now rewrite frame_set_children.
-Qed.
-Lemma absorb_forest_frame : forall ks r kn, frame (fst (absorb_forest ks r kn)) = frame r.
-Proof.
-  induction ks as [|k ks IH]; intros r kn; simpl; auto.
-  pose proof (absorb_frame k r kn) as F. destruct (absorb k r kn) as [r' kn']. simpl in F.
-  rewrite IH. exact F.
-Qed.
 Lemma frame_ename a b : frame a = frame b -> ename a = ename b.
 Proof. unfold frame. intros H; now inversion H. Qed.
 Lemma frame_epos a b : frame a = frame b -> epos a = epos b.
@@ -103,43 +22,120 @@ Proof. unfold frame. intros H; now inversion H. Qed.
 Lemma frame_eattrs a b : frame a = frame b -> eattrs a = eattrs b.
 Proof. unfold frame. intros H; now inversion H. Qed.
 
+Lemma frame_add_unique_child e c : frame (add_unique_child e c) = frame e.
+Proof.
+  unfold add_unique_child. destruct (get_child (echildren e) (ename c)); auto.
+  apply frame_set_children.
+Qed.
+Lemma frame_tag_optional_children e n cc : frame (tag_optional_children e n cc) = frame e.
+Proof.
+  unfold tag_optional_children. destruct (get_child (echildren e) n); auto. apply frame_set_children.
+Qed.
+Lemma frame_tag_close r n c snap : frame (tag_close r n c snap) = frame r.
+Proof.
+  unfold tag_close. destruct (snd snap); [rewrite frame_tag_optional_children|];
+    apply frame_add_unique_child.
+Qed.
+
+(* absorbing keeps name, standalone, count, attributes, position of the absorbing element *)
+Lemma absorb_frame nd root known : frame (fst (absorb nd root known)) = frame root.
+Proof.
+  destruct nd as [n ef attrs kids| | |]; [|apply frame_set_text|apply frame_set_text|reflexivity].
+  rewrite absorb_elem, tag_open_eq. cbn [fst snd].
+  rewrite frame_tag_close. apply frame_set_children.
+Qed.
+Lemma absorb_forest_frame : forall ks r kn, frame (fst (absorb_forest ks r kn)) = frame r.
+Proof.
+  induction ks as [|k ks IH]; intros r kn; [reflexivity|].
+  rewrite absorb_forest_cons, IH. apply absorb_frame.
+Qed.
+
+(* the text flag: set by character data, never cleared *)
+Lemma etext_set_children e c : etext (set_children e c) = etext e. Proof. now destruct e. Qed.
+Lemma etext_add_unique_child e c : etext (add_unique_child e c) = etext e.
+Proof.
+  unfold add_unique_child. destruct (get_child (echildren e) (ename c)); auto.
+  apply etext_set_children.
+Qed.
+Lemma etext_tag_close r n c snap : etext (tag_close r n c snap) = etext r.
+Proof.
+  unfold tag_close, tag_optional_children. destruct (snd snap).
+  - destruct (get_child _ n); [rewrite etext_set_children|]; apply etext_add_unique_child.
+  - apply etext_add_unique_child.
+Qed.
+Lemma absorb_text nd root known :
+  etext (fst (absorb nd root known)) = etext root || is_chardata nd.
+Proof.
+  destruct nd as [n ef attrs kids| | |]; [|cbn [absorb fst is_chardata]..].
+  - cbn [is_chardata]. rewrite absorb_elem, tag_open_eq. cbn [fst snd]. rewrite etext_tag_close.
+    unfold open_root1. rewrite etext_set_children. now rewrite orb_false_r.
+  - destruct root; cbn. now rewrite orb_true_r.
+  - destruct root; cbn. now rewrite orb_true_r.
+  - now rewrite orb_false_r.
+Qed.
+Lemma absorb_forest_text : forall ks r kn,
+  etext (fst (absorb_forest ks r kn)) = etext r || existsb is_chardata ks.
+Proof.
+  induction ks as [|k ks IH]; intros r kn; [cbn; now rewrite orb_false_r|].
+  rewrite absorb_forest_cons, IH, absorb_text. cbn [existsb]. now rewrite orb_assoc.
+Qed.
+
 Lemma absorb_known nd root known :
   snd (absorb nd root known) = match nd with NElem n _ _ _ => known_add known n | _ => known end.
 Proof.
-  destruct nd as [n ef attrs kids| | |]; simpl; auto.
-  rewrite tag_open_eq. reflexivity.
+  destruct nd as [n ef attrs kids| | |]; auto. now rewrite absorb_elem.
+Qed.
+
+Definition demote (cc : list (str * N)) (c : element) : element :=
+  fold_left set_child_optional (rev (to_optional c cc)) c.
+
+(* the per-occurrence step on the child, independent of the rest of the parent *)
+Definition occ_child (root : element) (n : str) (ef : bool) (attrs : list str) (kids : list node)
+           (known : list str) : element :=
+  let c1 := absorb_child ef kids (open_c0 root n attrs known) in
+  let c2 := with_pos (open_root1 root n) c1 in
+  if ef then demote [] c2
+  else match get_child (echildren root) n with
+       | Some c => demote (snap_of (echildren (snd c))) c2
+       | None => c2
+       end.
+
+Lemma ename_absorb_child ef kids c0 : ename (absorb_child ef kids c0) = ename c0.
+Proof.
+  unfold absorb_child. destruct ef; auto. apply frame_ename, absorb_forest_frame.
 Qed.
 
 Lemma absorb_elem_shape root n ef attrs kids known :
   NoDup (child_names (echildren root)) ->
   fst (absorb (NElem n ef attrs kids) root known)
-  = set_children root (others root n ++ [(Mand, occ_child root n ef attrs kids known)]).
+  = set_children root (snd (remove_child (echildren root) n)
+                       ++ [(Mand, occ_child root n ef attrs kids known)]).
 Proof.
-  intros Hnd. simpl. rewrite tag_open_eq. simpl. rewrite inner_go_eq.
+  intros Hnd. rewrite absorb_elem, tag_open_eq. cbn [fst snd].
   unfold occ_child.
-  set (c0 := open_child root n attrs known).
-  set (c1 := if ef then c0 else fst (absorb_forest kids c0 [])).
-  set (root1 := set_children root (others root n)).
+  set (c1 := absorb_child ef kids (open_c0 root n attrs known)).
+  set (root1 := open_root1 root n).
+  set (oth := snd (remove_child (echildren root) n)).
   assert (N1 : ename c1 = n).
-  { unfold c1. destruct ef; [apply ename_open_child|].
-    rewrite (frame_ename _ _ (absorb_forest_frame kids c0 [])). apply ename_open_child. }
-  assert (Hot : ~ In n (child_names (others root n))).
-  { unfold others. rewrite remove_child_names. now apply remove_first_notin. }
-  assert (A1 : add_unique_child root1 c1 = set_children root (others root n ++ [(Mand, with_pos root1 c1)])).
+  { unfold c1. rewrite ename_absorb_child. apply ename_open_c0. }
+  assert (Hot : ~ In n (child_names oth)).
+  { unfold oth. rewrite remove_child_names. now apply remove_first_notin. }
+  assert (E1 : echildren root1 = oth) by (unfold root1, open_root1; apply echildren_set_children).
+  assert (A1 : add_unique_child root1 c1 = set_children root (oth ++ [(Mand, with_pos root1 c1)])).
   { rewrite add_unique_child_fresh.
-    - unfold root1. now rewrite echildren_set_children, set_children_twice.
-    - unfold root1. rewrite echildren_set_children, N1. now apply get_child_none. }
+    - rewrite E1. unfold root1, open_root1. now rewrite set_children_twice.
+    - rewrite E1, N1. now apply get_child_none. }
   assert (TO : forall cc, tag_optional_children (add_unique_child root1 c1) n cc
-                          = set_children root (others root n ++ [(Mand, demote cc (with_pos root1 c1))])).
+                          = set_children root (oth ++ [(Mand, demote cc (with_pos root1 c1))])).
   { intros cc. unfold tag_optional_children. rewrite A1, echildren_set_children.
     rewrite get_child_last; auto.
-    2:{ unfold cname. simpl. now rewrite ename_with_pos. }
+    2:{ unfold cname. cbn [snd]. now rewrite ename_with_pos. }
     rewrite update_first_last; auto.
-    2:{ unfold cname. simpl. now rewrite ename_with_pos. }
-    simpl. now rewrite set_children_twice. }
-  unfold tag_close. destruct ef; simpl.
+    2:{ unfold cname. cbn [snd]. now rewrite ename_with_pos. }
+    cbn [fst snd]. now rewrite set_children_twice. }
+  unfold tag_close. destruct ef; cbn [fst snd].
   - apply TO.
-  - unfold found_child. destruct (get_child (echildren root) n) as [c|] eqn:G; simpl.
+  - destruct (get_child (echildren root) n) as [c|] eqn:G; cbn [snapshot fst snd].
     + apply TO.
     + exact A1.
 Qed.
